@@ -46,9 +46,15 @@ def main():
     pc = scen['pool']
 
     started = [False]
+    evpath = os.path.join(tmpdir, 'events.log')
+
+    def event(*fields):
+        # survives a watchdog kill of this process (out.json does not)
+        rtargets._append(evpath, ' '.join(str(f) for f in fields))
 
     def on_up(w):
         obs['ups'].append([w.pid, time.monotonic()])
+        event('up', w.pid, '%.6f' % time.monotonic())
         if started[0] and pc.get('slow_up'):
             time.sleep(pc['slow_up'])     # a slow on_process_up callback
 
@@ -114,6 +120,7 @@ def main():
         op = step[0]
         rec = {'op': step[:2] if op not in ('sleep',) else step,
                't_start': time.monotonic()}
+        event('step', op, '%.6f' % rec['t_start'])
         try:
             pool = state['pool']
             if op == 'apply':
@@ -257,6 +264,13 @@ def main():
                 rec['pid'] = idle[0] if idle else None
                 if idle:
                     kill_pid(idle[0], step[1])
+            elif op == 'wait_ups':
+                # until k workers have been started since the pool was built
+                end = time.monotonic() + step[2]
+                while len(obs['ups']) < pc['procs'] + step[1] and \
+                        time.monotonic() < end:
+                    time.sleep(0.005)
+                rec['ups'] = len(obs['ups']) - pc['procs']
             elif op == 'wait_size':
                 end = time.monotonic() + step[2]
                 while time.monotonic() < end:
